@@ -173,4 +173,53 @@ theorem C12_disjoint_names (n1 n2 k1 k2 : Str) (hdot1 : '.' ∉ n1) (hdot2 : '.'
   obtain ⟨h1, h2⟩ := key n1 n2 _ _ hdot1 hdot2 h
   exact ⟨h1, List.append_cancel_right h2⟩
 
+
+/-! ## Interleaved recordings do not interfere -/
+
+theorem applyDirOp_other (st : DirState) (op : DirOp) (s : Slot) (h : op.slot ≠ s) :
+    (applyDirOp st op).1 s = st s := by
+  have hs : ¬ s = op.slot := fun e => h e.symm
+  cases op with
+  | start t m => simp only [DirOp.slot] at hs; simp [applyDirOp, DirState.set, hs]
+  | stop t p =>
+    simp only [DirOp.slot] at hs
+    simp only [applyDirOp]
+    split <;> simp [DirState.set, hs]
+  | run t m p => simp only [DirOp.slot] at hs; simp [applyDirOp, DirState.set, hs]
+
+/-- What a call does to its own slot, and whether it succeeds, depends only on that slot's files. -/
+theorem applyDirOp_own (st st' : DirState) (op : DirOp) (h : st op.slot = st' op.slot) :
+    (applyDirOp st op).1 op.slot = (applyDirOp st' op).1 op.slot ∧ (applyDirOp st op).2 = (applyDirOp st' op).2 := by
+  cases op with
+  | start t m => simp only [DirOp.slot] at h; simp [applyDirOp, DirState.set, DirOp.slot, h]
+  | stop t p =>
+    simp only [DirOp.slot] at h
+    simp only [applyDirOp, DirOp.slot, h]
+    split <;> simp [DirState.set, h]
+  | run t m p => simp only [DirOp.slot] at h; simp [applyDirOp, DirState.set, DirOp.slot, h]
+
+/-- **C12 (interleavings).** Whatever calls for other step names and keys are
+interleaved, the two files of a (step name, key) pair end up exactly as if only
+the calls for that pair had been made, in the same order. -/
+theorem C12_noninterference (s : Slot) : ∀ (ops : List DirOp) (st st' : DirState), st s = st' s →
+    (runDirOps st ops).1 s = (runDirOps st' (ops.filter (fun op => op.slot = s))).1 s
+  | [], st, st', h => by simpa [runDirOps] using h
+  | op :: rest, st, st', h => by
+    by_cases hop : op.slot = s
+    · have hf : (op :: rest).filter (fun op => op.slot = s) = op :: rest.filter (fun op => op.slot = s) := by
+        simp [List.filter_cons, hop]
+      rw [hf]
+      simp only [runDirOps]
+      apply C12_noninterference s rest
+      have := (applyDirOp_own st st' op (by rw [hop]; exact h)).1
+      rw [hop] at this
+      exact this
+    · have hf : (op :: rest).filter (fun op => op.slot = s) = rest.filter (fun op => op.slot = s) := by
+        simp [List.filter_cons, hop]
+      rw [hf]
+      simp only [runDirOps]
+      apply C12_noninterference s rest
+      rw [applyDirOp_other st op s hop]
+      exact h
+
 end InToto
